@@ -1300,6 +1300,7 @@ def session_case(ctx, k):
 
     rng = ctx.rng("session", k)
     r4 = ctx.rng("session-r4", k)
+    r5 = ctx.rng("session-r5", k)
     nops = SESSION_OPS[ctx.tier]
     clock = VClock()
     hostile = k % 2 == 0
@@ -1359,6 +1360,10 @@ def session_case(ctx, k):
                     req = [rng.choice(SRES) for _ in range(rng.randint(0, 3))]
                     if rng.random() < 0.03:
                         req.insert(rng.randint(0, len(req)), NOPE)
+                    if req and r5.random() < 0.04:
+                        # round 5: one resource requested many times over (re-entrant holds far beyond 2-3: caps / bounded release loops)
+                        req = req + [r5.choice(req)] * r5.choice([15, 16, 17, 18, 19, 20, 33, 64, 65, 200])
+                        ctx.count("session_heavy_multiplicity_requests")
                     prio = rng.choice([0, 1, 5, 9, -3, 2 ** 53 + 1, 0.5])
                     if r4.random() < 0.1:
                         prio = r4.choice([True, False, Fraction(11, 2), Fraction(-1, 3)])
